@@ -1,6 +1,8 @@
 """Debug helper: python3-vt dbg.py <module> [name-substring]  -- runs obligation sets in-process."""
 import sys, time, json, importlib
 sys.path.insert(0, '/verif')
+import os
+sys.path.insert(1, os.environ.get('PYVC_REPO', '/repo'))
 from pyvc import vc
 from pyvc.check import build_loader
 L = build_loader()
